@@ -128,7 +128,7 @@ def Ty.TD (sfh : Bool) (t : Ty) : Prop :=
   | .array e _ => Ty.TD sfh e
   | .hash k v _ => Ty.TD sfh k ∧ Ty.TD sfh v
   | .variant ts => ∀ t', ∀ (_ : t' ∈ ts), Ty.TD sfh t'
-  | .optional t' | .notUndef t' | .sensitive t' | .typ t' | .iterable t' => Ty.TD sfh t'
+  | .optional t' | .notUndef t' | .sensitive t' | .iterator t' | .typ t' | .iterable t' => Ty.TD sfh t'
   | _ => True
 termination_by t.w
 decreasing_by
@@ -460,4 +460,21 @@ theorem trD_sensitive (n : Nat) (ihA : TransA cfg sfh n) (x : Ty) (b c : Ty) (hw
   have wc := H.wc; unfold Ty.WF at wc
   simp only [Ty.w] at hw
   exact ihA x y z (by omega) ⟨fa, fb, fc, wb, wc⟩ h1 h2
+
+theorem trD_iterator (n : Nat) (ihA : TransA cfg sfh n) (x : Ty) (b c : Ty) (hw : (Ty.iterator x).w ≤ n + 1)
+    (H : DHyp cfg sfh (.iterator x) b c)
+    (h1 : asgRecv cfg sfh (.iterator x) b = true) (h2 : asgRecv cfg sfh b c = true) : asgRecv cfg sfh (.iterator x) c = true := by
+  have fa := H.fa; unfold Ty.TD at fa
+  unfold asgRecv at h1
+  cases b <;> simp only [] at h1 <;> (first | contradiction | skip)
+  rename_i y
+  have fb := H.fb; unfold Ty.TD at fb
+  have wb := H.wb; unfold Ty.WF at wb
+  unfold asgRecv at h2 ⊢; cases c <;> simp only [] at h2 ⊢ <;> (first | contradiction | skip)
+  rename_i z
+  have fc := H.fc; unfold Ty.TD at fc
+  have wc := H.wc; unfold Ty.WF at wc
+  simp only [Ty.w] at hw
+  exact ihA x y z (by omega) ⟨fa, fb, fc, wb, wc⟩ h1 h2
+
 end Pcore.Lat
